@@ -263,6 +263,7 @@ def run(run: common.Run):
                              what='the observed trace is not a run of the model')
         run.extra['traces_validated_against_impl'] = len(lines)
     compare_stats_threads(run, tmp)
+    compute_interleaving_leg(run, tmp)
     free_running_stress(run, tmp)
 
 
@@ -457,6 +458,93 @@ def compare_stats_threads(run, tmp):
             if probe.max_inside > 1:
                 run.fail(dict(i=10**6 + 300 + th, op='stats', threads=th), f'stats(threads={th}): {probe.max_inside} threads were inside '
                          f'{probe.where} of the shared parameter dataset at the same time ({probe.calls} accesses)', signature=dict(kind='unlocked-access', op='stats'))
+
+
+def compute_interleaving_leg(run, tmp):
+    """
+    The controlled scheduler switches at lock and dataset operations; the fit and the correction of a block both sit between two
+    such operations.  Here two real worker threads are ordered with events so that another block's fit() completes between a
+    block's own fit() and apply() - `b.fit, j.fit, b.apply` for pairs of blocks b < j - on images with blocks that hold no valid
+    pixel at all, on either processing grid: the one model object is shared by all the blocks, and what it does for one block must
+    not depend on which other block it saw last.  Every such run is a real 2-thread schedule; outputs equal the 1-thread run.
+    """
+    import threading
+    from homonim import RasterFuse, utils
+    from homonim.kernel_model import RefSpaceModel, SrcSpaceModel
+    rng = run.rng('compute-interleaving')
+    u = 8
+    for gk, proc_ref in enumerate((True, False)):
+        if proc_ref:
+            ref = rasters.Grid(u * 5000, u * 2000, 4 * u, 4 * u, 22, 22)
+            src = rasters.Grid(ref.x0 + 6 * u, ref.ytop - 6 * u, 2 * u, 2 * u, 36, 36)
+        else:
+            src = rasters.Grid(u * 5000, u * 2000, 4 * u, 4 * u, 18, 18)
+            ref = rasters.Grid(src.x0 - 5 * u, src.ytop + 5 * u, 2 * u, 2 * u, 46, 46)
+        nb = 2
+        s = np.array([[[rng.randint(20, 200) for _ in range(src.w)] for _ in range(src.h)] for _ in range(nb)], float)
+        r = np.array([[[rng.randint(30, 150) for _ in range(ref.w)] for _ in range(ref.h)] for _ in range(nb)], float)
+        sv = np.zeros((src.h, src.w), bool)
+        sv[:src.h * 2 // 5, :src.w * 2 // 5] = True           # valid in the upper left corner only: most blocks are empty
+        pair = fusion.write_pair(tmp, f'c04_il{gk}', src, ref, s, r, sv, None)
+        ph, pw = fusion.proc_window_shape(src, ref, proc_ref)
+        model, kernel = ('gain-offset', 'gain-blk-offset')[gk], (3, 3)
+        mbm = fusion.block_mem_for(2, ph, pw, src.px, ref.px, proc_ref)
+        kw = dict(model=model, kernel_shape=kernel, max_block_mem=mbm, param=True)
+        base = fusion.run_fuse(pair.src_path, pair.ref_path, tmp / f'c04_il{gk}_base.tif', threads=1, **kw)
+        bsig = result_sig(base)
+        with warnings.catch_warnings():
+            warnings.simplefilter('ignore')
+            with RasterFuse(pair.src_path, pair.ref_path) as rf:
+                bps = list(rf.block_pairs(overlap=utils.overlap_for_kernel(kernel), max_block_mem=mbm))
+        n = len(bps)
+        combos = [(b, j) for b in range(n) for j in range(b + 1, n)]
+        if run.quick():
+            combos = [(0, j) for j in range(1, n)] + [(b, n - 1) for b in range(1, n - 1)]
+        cls = RefSpaceModel if proc_ref else SrcSpaceModel
+        orig_fit, orig_pb = cls.fit, RasterFuse._process_block
+        local = threading.local()
+        for b, j in combos:
+            j_fitted = threading.Event()
+            waited = {'timeout': False}
+
+            def pb(self, block_pair, *a, **k):
+                local.idx = bps.index(block_pair) if block_pair in bps else None
+                return orig_pb(self, block_pair, *a, **k)
+
+            def fit(self, src_ra, ref_ra):
+                res = orig_fit(self, src_ra, ref_ra)
+                idx = getattr(local, 'idx', None)
+                if idx == j:
+                    j_fitted.set()
+                elif idx == b:
+                    if not j_fitted.wait(30):
+                        waited['timeout'] = True
+                return res
+            cls.fit, RasterFuse._process_block = fit, pb
+            exc = None
+            try:
+                res = fusion.run_fuse(pair.src_path, pair.ref_path, tmp / f'c04_il{gk}_run.tif', threads=2, **kw)
+            except Exception as ex:
+                exc = ex
+            finally:
+                cls.fit, RasterFuse._process_block = orig_fit, orig_pb
+            run.evaluations += 1
+            run.hist['compute interleavings (b.fit, j.fit, b.apply)'] += 1
+            run.nontrivial.add(('interleave', gk, b, j))
+            case = dict(i=3_000_000 + gk * 10_000 + b * 100 + j, op='b.fit, j.fit, b.apply with two workers', grid='ref' if proc_ref else 'src',
+                        model=model, blocks=n, b=b, j=j)
+            if waited['timeout']:
+                run.hist['compute interleavings: order not reached'] += 1
+                continue
+            if exc is not None:
+                run.fail(case, f'process raised {type(exc).__name__}: {exc}', signature=dict(kind='raises', op='interleave'))
+                break
+            if not same(result_sig(res), bsig):
+                which = [nm for nm, x, y in zip(('corrected pixels', 'corrected masks', 'parameter pixels', 'parameter masks'),
+                                                result_sig(res), bsig) if not same((x,), (y,))]
+                run.fail(case, f'{", ".join(which)} differ from the single-threaded result when block {j} is fitted between the fit and '
+                         f'the correction of block {b} ({n} blocks, 2 workers)', signature=dict(kind='schedule-dependent', op='interleave'))
+                break
 
 
 class _ExclusiveProbe:
